@@ -119,6 +119,8 @@ def gen_name(rng):
 
 def gen_trusted(rng):
     out = []
+    if rng.random() < 0.06:
+        return out  # configured, but empty: nobody is trusted
     for _ in range(rng.choice([1, 1, 2, 3])):
         n = gen_name(rng)
         while not all(n.split(".")) and not n.startswith("["):  # a sane configuration: no empty labels
@@ -133,7 +135,7 @@ def gen_trusted(rng):
 
 def gen_host(rng, trusted):
     r = rng.random()
-    ref = rng.choice(trusted)
+    ref = rng.choice(trusted or ["localhost", "example.com", "[::1]"])
     base = ref[1:] if ref.startswith(".") else ref
     base_np = strip_port(base)
     if r < 0.15:
@@ -189,6 +191,12 @@ class HostStream(Stream):
         {"via": "get_host", "host": hs("example.com:80"), "trusted": [hs("example.com")], "scheme": "http"},
         {"via": "get_host", "host": hs("example.com:443"), "trusted": [hs("example.com")], "scheme": "wss"},
         {"via": "request", "host": hs("evil.com"), "trusted": [hs("example.com")], "scheme": "https"},
+        # a configured but empty list trusts nobody (it is not "no validation")
+        {"via": "fn", "host": hs("localhost"), "trusted": []},
+        {"via": "get_host", "host": hs("evil.example"), "trusted": [], "scheme": "http"},
+        {"via": "get_host", "host": "~", "trusted": [], "scheme": "https"},
+        {"via": "request", "host": hs("localhost"), "trusted": [], "scheme": "http"},
+        {"via": "request", "host": hs(""), "trusted": [], "scheme": "http"},
     ]
 
     def cases(self, rng, tier):
@@ -799,14 +807,133 @@ class GateStream(Stream):
                     yield c
 
 
+
+# --------------------------------------------------------------------------
+# check_pin_trust on raw cookie values, with the clock as an input
+
+
+TS_TEXTS = ["{now}", "{edge1}", "{edge0}", "{old}", "{future}", "0", "-5", "+{now}", " {now}", "{now} ", "1_0", "{now}.5", "abc", "", "0x10", "१२३", "٣", "1e9", "{now}|x", "9" * 30, "-" + "9" * 30]
+HASH_TEXTS = ["R", "R", "R", "W", "", "R|R", "r", "R ", " R"]
+CLOCKS = [2_000_000_000.5, 2_000_000_000.0, 1_700_000_000.999, 604_800.0, 0.25, 4_102_444_800.75]
+
+
+class PinCookieStream(Stream):
+    """DebuggedApplication.check_pin_trust on arbitrary cookie texts and clock values vs
+    Model.Debugger.checkPinTrustRaw (int() on the timestamp text is an opaque input of the model)"""
+
+    name = "pincookie"
+
+    @staticmethod
+    def mk(ts, h, clock, pin=True, bare=None):
+        return {"ts": ts, "hash": h, "clock": clock, "pin": pin, "bare": bare}
+
+    def __init__(self):
+        mk = self.mk
+        self.corpus = [
+            mk("{now}", "R", 2_000_000_000.5), mk("{edge1}", "R", 2_000_000_000.5), mk("{edge0}", "R", 2_000_000_000.5), mk("{edge0}", "R", 2_000_000_000.0),
+            mk("{edge1}", "R", 2_000_000_000.0), mk("{now}", "W", 2_000_000_000.5), mk("abc", "R", 2_000_000_000.5), mk("{future}", "R", 0.25),
+            mk("{now}", "R", 2_000_000_000.5, pin=False), mk(None, None, 2_000_000_000.5, bare="not-a-cookie"), mk(None, None, 2_000_000_000.5, bare=""),
+            mk(None, None, 2_000_000_000.5, bare=None), mk("{old}", "R", 2_000_000_000.5), mk("१२३", "R", 0.25), mk("{now}|x", "R", 2_000_000_000.5),
+            mk("9" * 30, "R", 2_000_000_000.5), mk("-" + "9" * 30, "R", 2_000_000_000.5),
+        ]
+
+    def cases(self, rng, tier):
+        n = 0
+        while tier != "quick" or n < 1200:
+            n += 1
+            if rng.random() < 0.12:
+                yield self.mk(None, None, rng.choice(CLOCKS), pin=rng.random() < 0.8, bare=rng.choice([None, "", "not-a-cookie", "|", "||", "5", "R"]))
+            else:
+                yield self.mk(rng.choice(TS_TEXTS), rng.choice(HASH_TEXTS), rng.choice(CLOCKS), pin=rng.random() < 0.85)
+
+    def _build(self, case):
+        from werkzeug.debug import PIN_TIME, hash_pin
+
+        g = gen_mod()
+        now = int(case["clock"])
+        if case["ts"] is None:
+            raw = case["bare"]
+        else:
+            ts = case["ts"].format(now=now, edge1=now - PIN_TIME + 1, edge0=now - PIN_TIME, old=now - 2 * PIN_TIME, future=now + 10 * PIN_TIME)
+            h = case["hash"].replace("R", hash_pin(g.PIN)).replace("W", hash_pin("000-000-000")).replace("r", hash_pin(g.PIN).upper())
+            raw = f"{ts}|{h}"
+        return raw
+
+    def _observe(self, case):
+        import time
+        from unittest import mock
+
+        from werkzeug.debug import PIN_TIME, hash_pin
+        from werkzeug.http import parse_cookie
+        from werkzeug.test import create_environ
+
+        g = gen_mod()
+        rig = self.__dict__.setdefault("_rigs", {}).get(case["pin"])
+        if rig is None:
+            rig = self._rigs[case["pin"]] = g.Rig(False, case["pin"])
+        raw = self._build(case)
+        env = create_environ("/")
+        if raw is not None:
+            env["HTTP_COOKIE"] = f"{rig.cookie_name}={raw}".encode("utf-8").decode("latin-1")  # the WSGI string convention
+        val = parse_cookie(env).get(rig.cookie_name)  # what check_pin_trust itself reads
+        clock = case["clock"]
+        with mock.patch.object(time, "time", lambda: clock):
+            res = rig.app.check_pin_trust(env)
+        return res, val, (hash_pin(g.PIN) if case["pin"] else None), int(PIN_TIME)
+
+    def real(self, case):
+        return str(self._observe(case)[0])
+
+    def model_line(self, case):
+        import math
+
+        res, val, hp, pin_time = self._observe(case)
+        tsval = "~"
+        if val and "|" in val:
+            try:
+                tsval = str(int(val.split("|", 1)[0]))
+            except ValueError:
+                tsval = "!"
+        return line("dbg.pintrust", pin_time, opt(hs, hp), opt(hs, val), math.floor(case["clock"]), tsval)
+
+    def oracle(self, case, real_out):
+        res, val, hp, pin_time = self._observe(case)
+        if real_out.startswith("EXC"):
+            return f"check_pin_trust raised {real_out[4:]}"
+        if not case["pin"]:
+            return None if res is True else "with the PIN switched off check_pin_trust must answer True"
+        if res is True:
+            # authorised: the right hash and a timestamp younger than PIN_TIME - for this clock value
+            if not val or "|" not in val:
+                return "a cookie without 'timestamp|hash' authorised"
+            ts_text, h = val.split("|", 1)
+            if h != hp:
+                return "a cookie with a hash other than the current PIN's authorised"
+            try:
+                ts = int(ts_text)
+            except ValueError:
+                return "a cookie whose timestamp is not an integer authorised"
+            if not (case["clock"] - pin_time < ts):
+                return f"a cookie older than PIN_TIME authorised (clock {case['clock']}, timestamp {ts})"
+        return None
+
+    def bucket(self, case, real_out):
+        return real_out + ("/pin-off" if not case["pin"] else "")
+
+    def nontrivial(self, case, real_out):
+        return case["ts"] is not None
+
+
 CHECK = Check(
     prop="C20",
-    gen=["Debugger", "PyFns_Host"],
-    modules=["WzVerif.Props.C20", "WzVerif.Props.C20T"],
-    streams=[HostStream(), PinStream(), SessionStream(), OverlapStream(), GateStream(), PreludeKernels()],
+    gen=["Debugger", "PyFns_Host", "PyFns_Debug"],
+    modules=["WzVerif.Props.C20", "WzVerif.Props.C20T", "WzVerif.Props.C20T2"],
+    streams=[HostStream(), PinStream(), SessionStream(), OverlapStream(), GateStream(), PinCookieStream(), PreludeKernels()],
     assumptions=[
+        "round 3 (Props/C20T2): DebuggedApplication.check_pin_trust, _fail_pin_auth, pin_auth and the handler selection of __call__ are regenerated from the source by tools/py2lean.py (Gen/PyFns_Debug.lean) on every run and proved equal to the hand model (checkPinTrust on the class of the cookie, failPinAuth on the byte counter, pinAuth, the branch structure of respond) for all inputs; what the methods read from the request and their collaborators (cookie value, hash_pin, the clock test, query arguments, check_host_trust, the frame table) enters as parameters, the two cookie statements of pin_auth and the penalty sleep are pinned by their exact source text, the lock is a no-op in the sequential model (the overlap of requests is covered by the pin-overlap stream and the AST facts of Props/C20)",
         "the idna codec is an opaque parameter of the model (String -> Except); the harness supplies CPython's answers for the strings of each case, the theorems hold for every such function",
-        "hash_pin (sha1), gen_salt and time.time() are abstracted: the PIN cookie is one of {valid, expired, wrong hash, malformed, absent}, the secret one of {right, wrong, absent}",
+        "hash_pin (sha1) and gen_salt are abstracted: in the dispatch model the PIN cookie is one of {valid, expired, wrong hash, malformed, absent}, the secret one of {right, wrong, absent}; the class of a cookie is defined by checkPinTrustRaw / classifyCookie on the raw cookie value with the clock floor(time.time()) and PIN_TIME as parameters and Python's int() on the timestamp text as an opaque function (the harness supplies its value per case; stream pincookie drives the real check_pin_trust with a patched clock); for an integer timestamp the code's float comparison (time.time() - PIN_TIME) < ts equals the integer comparison floor(time.time()) - PIN_TIME < ts",
+        "the widened table (Gen/DebuggerWide.lean, 32256 points, regenerated on every run with time.time() fixed at 2000000000.5 and four shared DebuggedApplication objects whose failure counter is reset before every point) refines the secret (case-swapped, truncated, empty), cookie (just valid, just expired, three malformed spellings), frame id (missing, non-integer) and Host (port, trailing dot, upper case, IPv6 literal) dimensions; a second table (504 points) varies app.trusted_hosts (default, ['[::1]', '.example.com'], []) and the request method; in both the Host verdict and the cookie class the model uses are its own (hostIsTrusted with CPython's ASCII idna fast path, the raw cookie check), not the live ones",
         "the generated gate table is the complete product command x secret x Host (21 listed values with the class the property text gives them) x cookie x frame x evalex x pin, one fresh DebuggedApplication per point, time.sleep and _log stubbed, the frame is a spy object registered in app.frames",
         "get_resource (static files of the debugger) is served without Host or secret check; the property does not list it among the gated endpoints",
         "PINs are abstracted to generations in the session model (a run-time change of app.pin increments the generation; a cookie carries the generation it was issued for); cookie expiry is not part of sessions",
@@ -819,7 +946,7 @@ CHECK = Check(
 )
 
 MANIFEST = {
-    "level_text": "Machine-checked Lean 4 theorems: the eval / console / pinauth / printpin gates decided by the kernel over the complete dispatch table obtained on every run by driving the real DebuggedApplication over the property's product (20160 points) and proved on the model for every input; host_is_trusted soundness/completeness for every host, trusted list and IDNA function; PIN lockout permanence for every attempt history (saturating byte counter observationally equal to an unbounded counter; the wrapping counter refuted). Model tied to the code by correspondence streams for host validation, PIN histories and dispatch.",
+    "level_text": "Machine-checked Lean 4 theorems: the eval / console / pinauth / printpin gates decided by the kernel over the complete dispatch table obtained on every run by driving the real DebuggedApplication over the property's product (20160 points), over a widened product (32256 points: secret spellings x cookie edge cases at the PIN_TIME boundary x frame-id spellings x Host spellings) and over trusted_hosts settings x request method (504 points), and proved on the model for every input; a cookie older than PIN_TIME never authorises, for every clock value, timestamp parser and cookie text; host_is_trusted soundness/completeness for every host, trusted list and IDNA function; PIN lockout permanence for every attempt history (saturating byte counter observationally equal to an unbounded counter; the wrapping counter refuted). Model tied to the code by correspondence streams for host validation, PIN histories and dispatch.",
     "level_note": "Trusted: Lean kernel; extract.py + the rig driving DebuggedApplication; the harness; CPython's idna codec (opaque).",
     "technique": "Lean 4 proof (decide +kernel over a regenerated complete decision table; induction over attempt histories and trusted lists) + model/code correspondence",
     "design_ref": "DESIGN.md section 4, C20",
